@@ -71,6 +71,16 @@ def c13(run):
                             "C13", workers=8, threads=8)
     run.add(tlc, s)
     run.rule += ("  ||  and every history of <= 4 keys ending in the reph key over EVERY one of the 36 consonants, hasanta and two vowel signs")
+    # deep syllables: histories generated by the syllable grammar (conjuncts of many members)
+    dd = 9 if run.quick() else 11
+    tlc, s = run_tlc_replay(run, "MC_Reph_deep", "MC_Fixed.tla",
+                            dict(spec="Spec", constants={"Depth": dd, "Alphabet": '"rephdeep"'},
+                                 invariants=["ImplRefinesProp", "Emit"]),
+                            "C13", workers=8, threads=8)
+    run.add(tlc, s)
+    run.rule += ("  ||  deep final syllables: every history of <= %d keys generated by the syllable grammar itself - optional leading character, conjunct of "
+                 "consonants joined by hasanta or by the ro-fola / zo-fola keys (up to %d members), optional vowel sign, optional chandrabindu, reph key - "
+                 "4 settings of the other helpers" % (dd, dd - 3))
     # option off: the reph key simply appends its value -- covered by the full alphabet with reph off
     tlc, s = run_tlc_replay(run, "MC_Fixed_d3", "MC_Fixed.tla",
                             dict(spec="Spec", constants={"Depth": 3, "Alphabet": '"full"'},
@@ -178,9 +188,58 @@ def session_trace(run, focus, site):
     run.rule += SESSION_TRACE_RULE % (rounds, focus)
 
 
+SHADOW_RULE = ("  ||  impl -> spec, whole-system sessions with a shadow: 12 x %d recorded sessions of 14-27 words each (dictionary-guided words, emoticons, emoji "
+               "names, wrapped and suffixed words typed key by key with corrections and moved highlights; learning commits, finish, ctrl-backspace, backspaces down to idle; "
+               "update-engine while idle to another configuration, optionally after the user's auto-correct file was replaced; restarts over the same user-data "
+               "directory; both methods, both layouts, random options, real dictionary).  At the first event after every boundary and at about half of the others the "
+               "returned suggestion is compared with the one a brand-new context over the same configuration and user files returns for the surviving text; "
+               "Trace_Session (Focus=%s) decides when the comparison is owed and rejects the trace at the first difference")
+
+
+SYSTEM_RULE = ("  ||  whole system as one state machine (MC_System: configuration, method object replaced on a layout change, the user's auto-correct file with "
+               "its stamp / loaded copy / memo, learned choices in memory and on disk; events: a word ended by finish or by a learning commit, the file edited / "
+               "damaged / deleted, update-engine, restart - freely interleaved): TLC checks ShadowEquiv (in step with its files, the context answers every word "
+               "like a context created now) and StoreInStep for all behaviours of %d events (%d states), emits every behaviour of %d events and %d random ones of "
+               "%d events as scenarios: the history followed by four probe words (plain, emoji name, quoted, suffixed) vs a context created afterwards over the "
+               "same directory typing the same probes; renderings must be equal")
+
+
+def system_model(run, exhaustive=True):
+    q = run.quick()
+    run.sites = set(run.sites) | {"system"}
+    base = {"KeepMemo": "FALSE", "GoneKeepsLoaded": "FALSE"}
+    dd = 4 if q else 5
+    tlc, _ = run_tlc_replay(run, "MC_System_design", "MC_System.tla",
+                            dict(spec="Spec", constants=dict(base, Depth=dd, Emitting="FALSE"), invariants=["ShadowEquiv", "StoreInStep"]),
+                            run.pid, workers=8, threads=1, timeout=7000)
+    run.add(tlc, None)
+    design_states = tlc["states"]
+    de = 2 if q else 3
+    if exhaustive:
+        tlc, s = run_tlc_replay(run, "MC_System_emit", "MC_System.tla",
+                                dict(spec="Spec", constants=dict(base, Depth=de, Emitting="TRUE"), invariants=["ShadowEquiv", "Emit"]),
+                                run.pid, workers=4, threads=8, timeout=7000)
+        run.add(tlc, s)
+    num, ds = (400, 7) if q else (6000, 9)
+    tlc, s = run_tlc_replay(run, "MC_System_sim", "MC_System.tla",
+                            dict(spec="Spec", constants=dict(base, Depth=ds, Emitting="TRUE"), invariants=["ShadowEquiv", "Emit"]),
+                            run.pid, workers=1, threads=8, tlc_args=["-simulate", "num=%d" % num, "-depth", str(ds + 3), "-seed", str(run.seed + (7 if run.pid == "C09" else 0))],
+                            timeout=7000)
+    run.add(tlc, s)
+    run.rule += SYSTEM_RULE % (dd, design_states, de if exhaustive else 0, num, ds)
+
+
+def shadow_trace(run, focus, site):
+    rounds = 12 if run.quick() else 150
+    tlc, s = run_record_validate(run, "session-shadow", "shadow", "Trace_Session.tla", run.pid, site, rounds, shards=12, focus=focus, unit="new", timeout=6000)
+    run.add(tlc, s)
+    run.rule += SHADOW_RULE % (rounds, focus)
+
+
 def c01(run):
     session(run, {"panic"})
     session_trace(run, "C01", "panic")
+    shadow_trace(run, "C01", "panic")
     # learning histories: commits of arbitrary candidates (emoji, raw text, wrapped words), re-typing with suffixes, restarts
     rounds = 40 if run.quick() else 300
     tlc, s = run_record_validate(run, "store", "store", "Trace_Store.tla", "C01", "panic", rounds, shards=8, focus="C01")
@@ -195,7 +254,7 @@ def c01(run):
     run.add(tlc, s)
     for m in ("phonetic", "fixed"):
         tlc, s = run_tlc_replay(run, "MC_Quote_" + m, "MC_Quote.tla",
-                                dict(spec="Spec", constants={"MaxLen": 5 if q else 6, "Method": '"%s"' % m}, invariants=["Emit"]), "C01", workers=4, threads=8)
+                                dict(spec="Spec", constants={"MaxLen": 5 if q else 6, "Method": '"%s"' % m, "MaxLearn": 3 if q else 4}, invariants=["Emit"]), "C01", workers=4, threads=8)
         run.add(tlc, s)
     tlc, s = run_record_validate(run, "cands", "cands", "Trace_Cands.tla", "C01", "panic", 1, shards=12 if q else 16, focus="C01", unit="event", timeout=3000)
     run.add(tlc, s)
@@ -213,6 +272,7 @@ def c02(run):
 def c06(run):
     session(run, {"flag", "fresh"})
     session_trace(run, "C06", "flag")
+    shadow_trace(run, "C06", "fresh")
 
 
 def c03(run):
@@ -242,7 +302,7 @@ def c17(run):
     n = 5 if run.quick() else 7
     for m in ("phonetic", "fixed"):
         tlc, s = run_tlc_replay(run, "MC_Quote_" + m, "MC_Quote.tla",
-                                dict(spec="Spec", constants={"MaxLen": n if m == "phonetic" else n, "Method": '"%s"' % m}, invariants=["Emit"]),
+                                dict(spec="Spec", constants={"MaxLen": n if m == "phonetic" else n, "Method": '"%s"' % m, "MaxLearn": 4 if run.quick() else 5}, invariants=["Emit"]),
                                 "C17", workers=4, threads=8)
         run.add(tlc, s)
     tlc, s = run_tlc_replay(run, "MC_Split_design", "MC_Split.tla",
@@ -254,7 +314,9 @@ def c17(run):
                 "scenario with paired contexts differing only in the smart-quote option (English on + ANSI off, and English off + ANSI on); the harness "
                 "types 2 concretisations per string and requires: same kind/length/preselection; punctuation-only text and the raw typed text identical; "
                 "every other candidate = the OFF candidate with the quotes of its leading/trailing punctuation curled (opening/closing).  "
-                "SmartQuoteLocal is checked on the model for all class strings.  Non-trivial = every compared pair." % n)
+                "SmartQuoteLocal is checked on the model for all class strings.  Phonetic method, strings to length %d with a non-empty word: the pair is "
+                "also run with a learned choice (own user-data directory per side: type, commit another candidate than the preselected one, type again) - "
+                "the second lists must relate in the same way, preselection included.  Non-trivial = every compared pair." % (n, 4 if run.quick() else 5))
     run.assumptions += ["the split defining 'wrapping' is the transcript's (Split.ImplSplit), the same for both contexts of a pair",
                         "contexts are pooled (suggestions on need the dictionary); a mismatch is confirmed on brand-new contexts before it is reported"]
 
@@ -276,6 +338,7 @@ def c05(run):
                 "context that has composed all earlier scenarios, with a second context of the same process used between the steps) vs (brand-new context typing "
                 "the surviving text); the full renderings must be equal.  Non-trivial = every compared pair."
                 % (consts["MaxPrior"], consts["MaxEdits"]))
+    shadow_trace(run, "C05", "pure")
     run.assumptions += ["the brand-new-context rendering of a text is computed once per (configuration, text) and cached (it is deterministic)",
                         "learned-selection store empty and selection byte 0 throughout (held fixed, as the quantifier says)",
                         "warm contexts are rotated after 4000 steps; the replay file of a violation carries the whole history of the warm context"]
@@ -317,6 +380,8 @@ def c11(run):
     # suggestions, both layout files, method switches); after an update every configuration-dependent conjunct is enforced
     # against the NEW configuration (Trace_Session, Focus = C11)
     session_trace(run, "C11", "update")
+    shadow_trace(run, "C11", "update")
+    system_model(run)
 
 
 def apalache_store(run):
@@ -382,6 +447,8 @@ def c09(run):
                 "TLC validates every trace against Trace_Store (learned map evolves by the spec's own KeyOf/StripCand/Join; each shown list must "
                 "preselect the learned/joined candidate; committing the preselected index changes nothing; file always absent or valid).  "
                 "Non-trivial = every round (each contains learning commits)." % rounds)
+    shadow_trace(run, "C09", "store")
+    system_model(run, exhaustive=False)
     run.assumptions += ["facts logged by the recorder: transliteration of the wrapping punctuation (okkhor oracle) and its curled form",
                         "the driver passes the preselected index it was last shown as selection byte (what a front-end does)"]
 
